@@ -7,3 +7,6 @@ import MW.Props.C11
 #print axioms MW.Props.C11.C11_split_world
 #print axioms MW.Props.C11.C11_fee_withdraw_world
 #print axioms MW.Props.C11.messages_are_the_modelled_ones
+#print axioms MW.Props.C11.C11_fee_ledger
+#print axioms MW.Props.C11.C11_withdrawn_le_accrued
+#print axioms MW.Props.C11.fee_balance_moves_only_by
